@@ -141,6 +141,8 @@ def run(chk):
         scns += [gen_spread_scenario(chk.rng) for _ in range(n // 2)]
         scns += [gen_window_scenario(chk.rng) for _ in range(n // 2)]
         scns += [gen_settings_scenario(chk.rng) for _ in range(n // 4)]
+        scns += [gen_long_scenario(chk.rng) for _ in range(n // 5)]
+        scns += [gen_empty_pool_scenario(chk.rng) for _ in range(n // 8)]
     res, htbl = evaluate("C14", build, scns)
 
     distinct = set()
